@@ -1,11 +1,22 @@
 # Table of claimed / not-claimed properties (read by mkmanifest.py).
-STATIC_BASE = "Trusted base: Go type checker and go/ssa (x/tools v0.29.0); call graph = static callees + VTA, assumed to over-approximate real calls (no reflection/unsafe/cgo in anchored packages); path rules are path-insensitive to data. bbolt, btcd and x/crypto are trusted."
+STATIC_BASE = "Trusted base: Go type checker and go/ssa (x/tools v0.29.0); call graph = static callees + VTA, assumed to over-approximate real calls (no reflection/unsafe/cgo in anchored packages); path rules are path-insensitive to data (infeasible paths are considered). bbolt, btcd and x/crypto are trusted. Decides a named structural clause only, not the behavioural property as a whole."
 
-claim("C10", "error-discipline dataflow: whole-program fixpoint of database-write-error carriers + per-call-site CFG path check (dropped / swallowed errors); memory-after-disk ordering",
-      "Decides, for every call site and path in six packages, that no database-write error is dropped or turned into success, and that manager mirrors are stored after the disk write. Necessary structural clause of C10 (the one its rationale names); post-rollback state equality and retry equivalence are NOT decided.",
-      STATIC_BASE, "DESIGN.md section 4, C10")
+CL = {
+ "C01": ("guard-dominance + sibling agreement over the five spendability passes, canonical linear form of the confirmation/maturity comparison, who-may-write and co-mutation (unspent index vs balance counter) checks, loop-completeness, on SSA/CFG",
+         "For all paths of all five balance/UTXO passes: both exclusion filters guard the accumulation, the first pass subtracts once; unspent-index editors also write the balance counter; only wtxmgr writes its namespace; process-all loops have no early exit; conflict removal is transitive. Necessary conditions of the ledger equation; the equation over histories is NOT decided."),
+ "C02": ("must-pass-through / must-not-pass path rules on the SSA CFG of insertMinedTx, removeConflict, removeDoubleSpends, rollback; per-iteration must-pass and loop-completeness; call-graph reachability",
+         "For all paths: confirmation runs double-spend removal; conflict removal recurses over every output and every spender; rollback re-queues non-coinbase records/inputs/credits, never coinbases, deletes every block record; loops are complete. Necessary steps of the convergence mechanism; equality of final states is NOT decided."),
+ "C09": ("must-hold lockset analysis propagated over all caller chains (static + VTA call graph) for every address-issuing database transaction; closure-context (OnCommit) and who-may-call checks",
+         "For every call chain in the program, derive+commit+callback of every address-issuing walletdb.Update happens under one common Wallet mutex; index mirrors move only in the OnCommit callback under the scoped manager's lock. This is the structural closure of the hazard the property names; index arithmetic and recovery's Extend* path are NOT decided."),
+ "C10": ("error-discipline dataflow: whole-program fixpoint of database-write-error carriers + per-call-site CFG path check (dropped / swallowed errors); memory-after-disk ordering",
+         "Decides, for every call site and path in six packages, that no database-write error is dropped or turned into success, and that manager mirrors are stored after the disk write. Necessary structural clause of C10 (the one its rationale names); post-rollback state equality and retry equivalence are NOT decided."),
+ "C12": ("guard-dominance on lease tests in all five passes, normalised time-comparison agreement across the three expiry sites, ownership-guard edge cuts, per-input must-pass for lease release, who-may-write the lease bucket, writer/reader layout agreement",
+         "For all paths: leased outputs are skipped/subtracted once in every pass; all expiry tests are the same relation and each site acts on the right side; ownership guards dominate the writes; confirmed spends release every input's lease. Time-dependent behaviour over histories is NOT decided."),
+}
+for pid,(tech,text) in CL.items():
+    claim(pid, tech, text, STATIC_BASE, "DESIGN.md section 4, "+pid)
 
 _todo = "check not built yet in this round (planned: see DESIGN.md section 4); listed here so that nothing is claimed without a working check"
-for pid in ["C01","C02","C03","C04","C05","C06","C07","C08","C09","C11","C12","C13","C15","C16","C17","C18","C19","C20"]:
-    na(pid, _todo)
+for pid in ["C03","C04","C05","C06","C07","C08","C11","C13","C15","C16","C17","C18","C19","C20"]:
+    if pid not in CL: na(pid, _todo)
 na("C14", "topological-sort correctness over all DAGs and map orders is an algorithmic invariant over runtime graphs; no clause of it is visible in the shape of the code other than the algorithm restated line by line (a frozen-fragment rule). The plumbing clause (rebroadcast list is the sort's output, iterated in order) is decided under C20-R4.")
